@@ -234,3 +234,300 @@ Example bearer_by_generic_lookup_refuted :
   slot_client cfg nx db SBearer (mint cfg MIdToken (PS "n") (PS "r") (PS "sid") (PS "99")) = None /\
   slot_client cfg nx db SBearer (mint cfg (MTok KAccess) (PS "n") (PS "r") (PS "sid") (PS "99")) = Some (PS "client_1").
 Proof. vm_compute. repeat split; reflexivity. Qed.
+
+(* ================================================================== REQUESTS IN FLIGHT (Model/TokenFmt.v tendpoint ...)
+   Whatever the interleaving of the calls that belong to different requests, an endpoint whose outputs do not
+   depend on the state it carries between calls answers every request as if it were alone; the model endpoint is
+   such an endpoint; the session its answer stands for is the one the presented token was minted for. *)
+Open Scope list_scope.
+Lemma ttget_ttdel i j t : ttget i (ttdel j t) = if Nat.eqb i j then None else ttget i t.
+Proof.
+  induction t as [|[k s] t IH]; cbn.
+  - now destruct (Nat.eqb i j).
+  - destruct (Nat.eqb j k) eqn:Ejk.
+    + rewrite IH. destruct (Nat.eqb i j) eqn:Eij; [reflexivity|].
+      apply Nat.eqb_eq in Ejk. subst k. now rewrite Eij.
+    + cbn. destruct (Nat.eqb i k) eqn:Eik.
+      * destruct (Nat.eqb i j) eqn:Eij; [|reflexivity].
+        apply Nat.eqb_eq in Eij, Eik. subst. now rewrite Nat.eqb_refl in Ejk.
+      * exact IH.
+Qed.
+Lemma ttget_ttset i j s t : ttget i (ttset j s t) = if Nat.eqb i j then Some s else ttget i t.
+Proof. unfold ttset. cbn. destruct (Nat.eqb i j) eqn:E; [reflexivity|]. rewrite ttget_ttdel. now rewrite E. Qed.
+
+Section TIndependent.
+  Variable S : Type.
+  Variable E : tendpoint S.
+  Hypothesis Hparse : forall s s' r, snd (te_parse E s r) = snd (te_parse E s' r).
+  Hypothesis Hprocess : forall s s' r, snd (te_process E s r) = snd (te_process E s' r).
+  Hypothesis Hrespond : forall s s' r a, snd (te_respond E s r a) = snd (te_respond E s' r a).
+
+  Definition tproc0 (r : treq) : tanswer := snd (te_process E (te_init E) r).
+  Lemma town_answer_ok r s : snd (te_parse E (te_init E) r) = true ->
+    snd (te_respond E s r (tproc0 r)) = town_answer E r.
+  Proof.
+    intros Hp. unfold town_answer. destruct (te_parse E (te_init E) r) as [s1 ok] eqn:Ep. cbn in Hp. subst ok.
+    destruct (te_process E s1 r) as [s2 a] eqn:Epr.
+    assert (a = tproc0 r) as -> by (unfold tproc0; rewrite (Hprocess (te_init E) s1 r), Epr; reflexivity).
+    apply Hrespond.
+  Qed.
+  Lemma town_answer_refused r : snd (te_parse E (te_init E) r) = false -> town_answer E r = TRefused.
+  Proof. intros Hp. unfold town_answer. destruct (te_parse E (te_init E) r) as [s1 ok]. cbn in Hp. now subst ok. Qed.
+
+  Definition tslot_ok (reqs : list treq) (i : nat) (sl : tslot) : Prop :=
+    exists r, nth_error reqs i = Some r /\ snd (te_parse E (te_init E) r) = true /\
+      (sl = TsParsed \/ sl = TsAnswer (tproc0 r)).
+  Definition ttable_ok (reqs : list treq) (t : ttable) : Prop := forall i sl, ttget i t = Some sl -> tslot_ok reqs i sl.
+  Definition tout_ok (reqs : list treq) (out : list (nat * tanswer)) : Prop :=
+    forall i a, In (i, a) out -> exists r, nth_error reqs i = Some r /\ a = town_answer E r.
+
+  Lemma ttable_ok_set reqs t i sl : ttable_ok reqs t -> tslot_ok reqs i sl -> ttable_ok reqs (ttset i sl t).
+  Proof.
+    intros Ht Hs j sl' Hj. rewrite ttget_ttset in Hj. destruct (Nat.eqb j i) eqn:Eji.
+    - apply Nat.eqb_eq in Eji. subst j. now inversion Hj; subst.
+    - now apply Ht.
+  Qed.
+  Lemma ttable_ok_del reqs t i : ttable_ok reqs t -> ttable_ok reqs (ttdel i t).
+  Proof. intros Ht j sl Hj. rewrite ttget_ttdel in Hj. destruct (Nat.eqb j i); [discriminate|]. now apply Ht. Qed.
+
+  Lemma tstep_ok reqs s t ev s' t' out :
+    ttable_ok reqs t -> tstep E reqs (s, t) ev = ((s', t'), out) -> ttable_ok reqs t' /\ tout_ok reqs out.
+  Proof.
+    intros Ht Hs. assert (Hnil : tout_ok reqs []) by (intros ? ? []).
+    destruct ev as [i|i|i]; cbn in Hs.
+    - destruct (nth_error reqs i) as [r|] eqn:Er; [|inversion Hs; subst; now split].
+      destruct (te_parse E s r) as [s1 ok] eqn:Ep.
+      assert (Hd : snd (te_parse E (te_init E) r) = ok) by (rewrite (Hparse (te_init E) s r), Ep; reflexivity).
+      destruct ok; inversion Hs; subst; clear Hs.
+      + split; [|exact Hnil]. apply ttable_ok_set; [exact Ht|]. exists r. auto.
+      + split; [now apply ttable_ok_del|]. intros j a [Hj|[]]. inversion Hj; subst. exists r. split; [exact Er|].
+        symmetry. now apply town_answer_refused.
+    - destruct (nth_error reqs i) as [r|] eqn:Er; [|inversion Hs; subst; now split].
+      destruct (ttget i t) as [[|a]|] eqn:Eg; try (inversion Hs; subst; now split).
+      destruct (te_process E s r) as [s1 a] eqn:Epr. inversion Hs; subst; clear Hs.
+      split; [|exact Hnil]. apply ttable_ok_set; [exact Ht|].
+      destruct (Ht _ _ Eg) as (r' & Er' & Hp & _). rewrite Er in Er'. inversion Er'; subst r'.
+      exists r. repeat split; auto. right. f_equal. unfold tproc0. rewrite (Hprocess (te_init E) s r), Epr. reflexivity.
+    - destruct (nth_error reqs i) as [r|] eqn:Er; [|inversion Hs; subst; now split].
+      destruct (ttget i t) as [[|a]|] eqn:Eg; try (inversion Hs; subst; now split).
+      destruct (te_respond E s r a) as [s1 b] eqn:Ere. inversion Hs; subst; clear Hs.
+      split; [now apply ttable_ok_del|]. intros j c [Hj|[]]. inversion Hj; subst.
+      destruct (Ht _ _ Eg) as (r' & Er' & Hp & [Hsl|Hsl]); [discriminate|]. rewrite Er in Er'. inversion Er'; subst r'.
+      inversion Hsl; subst a. exists r. split; [exact Er|].
+      rewrite <- (town_answer_ok r s Hp). now rewrite Ere.
+  Qed.
+
+  Lemma trun_from_ok reqs sched : forall s t, ttable_ok reqs t -> tout_ok reqs (trun_from E reqs (s, t) sched).
+  Proof.
+    induction sched as [|ev rest IH]; intros s t Ht; cbn [trun_from].
+    - intros ? ? [].
+    - destruct (tstep E reqs (s, t) ev) as [[s' t'] out] eqn:Es.
+      destruct (tstep_ok _ _ _ _ _ _ _ Ht Es) as [Ht' Ho].
+      intros i a Hin. apply in_app_or in Hin as [Hin|Hin]; [now apply Ho|]. exact (IH s' t' Ht' i a Hin).
+  Qed.
+
+  Theorem tflight_independent reqs sched i a :
+    In (i, a) (run_tflight E reqs sched) -> exists r, nth_error reqs i = Some r /\ a = town_answer E r.
+  Proof. unfold run_tflight. apply trun_from_ok. intros j sl Hj. discriminate. Qed.
+End TIndependent.
+
+(* ------------------------------------------------------------------ the model endpoint *)
+Theorem tmodel_keeps_nothing P (s s' : unit) r a :
+  te_parse (tep_model P) s r = te_parse (tep_model P) s' r /\ te_process (tep_model P) s r = te_process (tep_model P) s' r
+  /\ te_respond (tep_model P) s r a = te_respond (tep_model P) s' r a.
+Proof. now destruct s, s'. Qed.
+
+Lemma town_answer_model P r : town_answer (tep_model P) r = tanswer1 P r.
+Proof. unfold town_answer, tanswer1. cbn. now destruct (tparse P r). Qed.
+
+(* for every interleaving, the answer handed out for request i is the answer of request i alone: a function of
+   the value request i presents (and of the provider), of no other request *)
+Theorem tflight_model P reqs sched i a :
+  In (i, a) (run_tflight (tep_model P) reqs sched) -> exists r, nth_error reqs i = Some r /\ a = tanswer1 P r.
+Proof.
+  intros H. apply (tflight_independent unit (tep_model P)) in H.
+  - destruct H as (r & Hr & Ha). exists r. now rewrite <- town_answer_model.
+  - reflexivity.
+  - reflexivity.
+  - reflexivity.
+Qed.
+(* ... in particular the other requests of the flight can be exchanged for any others *)
+Theorem tflight_others_irrelevant P reqs reqs' sched sched' i r a a' :
+  nth_error reqs i = Some r -> nth_error reqs' i = Some r ->
+  In (i, a) (run_tflight (tep_model P) reqs sched) -> In (i, a') (run_tflight (tep_model P) reqs' sched') -> a = a'.
+Proof.
+  intros Hr Hr' H H'. apply tflight_model in H as (r1 & E1 & ->). apply tflight_model in H' as (r2 & E2 & ->).
+  congruence.
+Qed.
+
+(* ------------------------------------------------------------------ every request does get its answer *)
+Definition tevent_id (ev : tevent) : nat := match ev with TvParse i | TvProcess i | TvRespond i => i end.
+Definition tabout (i : nat) (l : list tevent) : bool := existsb (fun ev => Nat.eqb (tevent_id ev) i) l.
+Fixpoint texec {S} (E : tendpoint S) (reqs : list treq) (st : S * ttable) (sched : list tevent) : S * ttable :=
+  match sched with [] => st | ev :: r => texec E reqs (fst (tstep E reqs st ev)) r end.
+Lemma trun_from_app {S} (E : tendpoint S) reqs a : forall st b,
+  trun_from E reqs st (a ++ b) = trun_from E reqs st a ++ trun_from E reqs (texec E reqs st a) b.
+Proof.
+  induction a as [|ev a IH]; intros st b; cbn [app trun_from texec]; [reflexivity|].
+  destruct (tstep E reqs st ev) as [st' out]. cbn [fst]. now rewrite IH, app_assoc.
+Qed.
+Lemma tstep_other P reqs st ev i : tevent_id ev <> i ->
+  ttget i (snd (fst (tstep (tep_model P) reqs st ev))) = ttget i (snd st).
+Proof.
+  intros Hne. destruct st as [s t].
+  assert (Hset : forall sl, ttget i (ttset (tevent_id ev) sl t) = ttget i t).
+  { intros sl. rewrite ttget_ttset. destruct (Nat.eqb i (tevent_id ev)) eqn:E; [|reflexivity].
+    apply Nat.eqb_eq in E. now destruct Hne. }
+  assert (Hdel : ttget i (ttdel (tevent_id ev) t) = ttget i t).
+  { rewrite ttget_ttdel. destruct (Nat.eqb i (tevent_id ev)) eqn:E; [|reflexivity].
+    apply Nat.eqb_eq in E. now destruct Hne. }
+  destruct ev as [j|j|j]; cbn in *.
+  - destruct (nth_error reqs j) as [r0|]; [|reflexivity]. destruct (tparse P r0); cbn; auto.
+  - destruct (nth_error reqs j) as [r0|]; [|reflexivity]. destruct (ttget j t) as [[|a]|]; cbn; auto.
+  - destruct (nth_error reqs j) as [r0|]; [|reflexivity]. destruct (ttget j t) as [[|a]|]; cbn; auto.
+Qed.
+Lemma texec_other P reqs l i : tabout i l = false -> forall st,
+  ttget i (snd (texec (tep_model P) reqs st l)) = ttget i (snd st).
+Proof.
+  induction l as [|ev l IH]; intros Ha st; cbn; [reflexivity|].
+  cbn in Ha. apply Bool.orb_false_iff in Ha as [He Hl]. rewrite (IH Hl).
+  apply tstep_other. intros E. subst i. now rewrite Nat.eqb_refl in He.
+Qed.
+Lemma tst_eta (st : unit * ttable) : st = (tt, snd st).
+Proof. now destruct st as [[] t]. Qed.
+
+Theorem tflight_answers P reqs i r a b c d :
+  nth_error reqs i = Some r -> tabout i b = false -> tabout i c = false ->
+  In (i, tanswer1 P r)
+     (run_tflight (tep_model P) reqs (a ++ TvParse i :: b ++ TvProcess i :: c ++ TvRespond i :: d)).
+Proof.
+  intros Hr Hb Hc. unfold run_tflight. rewrite trun_from_app. apply in_or_app. right.
+  set (st0 := texec (tep_model P) reqs _ a). rewrite (tst_eta st0). cbn [trun_from tstep]. rewrite Hr.
+  cbn [tep_model te_parse]. unfold tanswer1. destruct (tparse P r) eqn:Ep; [|now left].
+  cbn [app]. rewrite trun_from_app. apply in_or_app. right.
+  set (st1 := texec (tep_model P) reqs _ b).
+  assert (H1 : ttget i (snd st1) = Some TsParsed).
+  { unfold st1. rewrite (texec_other P reqs b i Hb). cbn [snd]. rewrite ttget_ttset. now rewrite Nat.eqb_refl. }
+  rewrite (tst_eta st1). cbn [trun_from tstep]. rewrite Hr, H1. cbn [tep_model te_process].
+  cbn [app]. rewrite trun_from_app. apply in_or_app. right.
+  set (st2 := texec (tep_model P) reqs _ c).
+  assert (H2 : ttget i (snd st2) = Some (TsAnswer (tprocess P r))).
+  { unfold st2. rewrite (texec_other P reqs c i Hc). cbn [snd]. rewrite ttget_ttset. now rewrite Nat.eqb_refl. }
+  rewrite (tst_eta st2). cbn [trun_from tstep]. rewrite Hr, H2. cbn [tep_model te_respond]. now left.
+Qed.
+
+(* ------------------------------------------------------------------ whose session the answer is *)
+(* the ID Token handler resolves what the provider minted to the session it was minted for *)
+Lemma idt_info_minted cfg expired m nonce rnd sid exp x :
+  idt_info (h_idt cfg) expired (mint cfg m nonce rnd sid exp) = TOk x -> x = Some sid.
+Proof.
+  unfold idt_info, mint. destruct m as [c|].
+  - destruct (h_of cfg c) as [k|k].
+    + unfold opaque_token. cbn [sig_verify]. discriminate.
+    + unfold jwt_token, jwt_payload. cbn [sig_verify]. destruct (Nat.eqb (h_idt cfg) k); [|discriminate].
+      destruct (expired exp); intros H; inversion H; reflexivity.
+  - unfold jwt_token, jwt_payload. cbn [sig_verify]. rewrite Nat.eqb_refl.
+    destruct (expired exp); intros H; inversion H; reflexivity.
+Qed.
+Lemma generic_info_minted cfg expired m nonce rnd sid exp x :
+  generic_info cfg expired (mint cfg m nonce rnd sid exp) = TOk x -> x = Some sid.
+Proof.
+  unfold generic_info. set (t := mint cfg m nonce rnd sid exp).
+  destruct (handler_info cfg expired KCode t) as [y|e] eqn:E1; cbn [is_ok].
+  { intros H. inversion H; subst. now apply handler_info_minted in E1 as [_ ->]. }
+  destruct (handler_info cfg expired KAccess t) as [y|e2] eqn:E2; cbn [is_ok].
+  { intros H. inversion H; subst. now apply handler_info_minted in E2 as [_ ->]. }
+  destruct (handler_info cfg expired KRefresh t) as [y|e3] eqn:E3; cbn [is_ok].
+  { intros H. inversion H; subst. now apply handler_info_minted in E3 as [_ ->]. }
+  destruct (idt_info (h_idt cfg) expired t) as [y|e4] eqn:E4; cbn [is_ok]; [|discriminate].
+  intros H. inversion H; subst. now apply idt_info_minted in E4.
+Qed.
+(* at every slot, what the provider minted resolves - if it resolves - to the session it was minted for *)
+Theorem slot_resolve_minted cfg expired s m nonce rnd sid exp x :
+  slot_resolve cfg expired s (mint cfg m nonce rnd sid exp) = TOk x -> x = Some sid.
+Proof.
+  unfold slot_resolve. destruct (slot_handler s) as [h|].
+  - intros H. now apply handler_info_minted in H as [_ ->].
+  - apply generic_info_minted.
+Qed.
+Theorem slot_session_minted {A} cfg expired (db : list (pystr * A)) s m nonce rnd sid exp v :
+  slot_session cfg expired db s (mint cfg m nonce rnd sid exp) = Some v -> assoc sid db = Some v.
+Proof.
+  unfold slot_session. destruct (slot_resolve cfg expired s (mint cfg m nonce rnd sid exp)) as [x|e] eqn:E; [|discriminate].
+  apply slot_resolve_minted in E. subst x. auto.
+Qed.
+
+(* the answer to a request that presents a value this provider minted for session sid: the session on record for
+   sid; at a class slot the value is of that class; every endpoint but userinfo serves the session's own client *)
+Theorem tanswer1_minted P r m nonce rnd sid exp s :
+  r_tok r = mint (p_cfg P) m nonce rnd sid exp -> tanswer1 P r = TSession s ->
+  assoc sid (p_db P) = Some s /\
+  (forall h, slot_handler (ep_slot (r_ep r)) = Some h -> m = MTok h) /\
+  (r_ep r <> EpUserinfo -> s_client s = r_by r).
+Proof.
+  intros Ht. unfold tanswer1. destruct (tparse P r); [|discriminate]. unfold tprocess. rewrite Ht.
+  destruct (slot_session (p_cfg P) (p_expired P) (p_db P) (ep_slot (r_ep r)) (mint (p_cfg P) m nonce rnd sid exp)) as [s0|] eqn:E;
+    [|discriminate].
+  assert (Hdb := slot_session_minted _ _ _ _ _ _ _ _ _ _ E).
+  assert (Hcls : forall h, slot_handler (ep_slot (r_ep r)) = Some h -> m = MTok h).
+  { intros h Hh. unfold slot_session in E.
+    destruct (slot_resolve (p_cfg P) (p_expired P) (ep_slot (r_ep r)) (mint (p_cfg P) m nonce rnd sid exp)) as [x|e] eqn:E2; [|discriminate].
+    now apply (slot_class_separation _ _ _ h) in E2 as [-> _]. }
+  destruct (r_ep r) eqn:Eep.
+  - intros H. inversion H; subst. repeat split; auto. congruence.
+  - destruct (str_eqb (s_client s0) (r_by r)) eqn:Ec; cbn [andb]; [|discriminate].
+    destruct (ep_class_ok P r); [|discriminate]. intros H. inversion H; subst. apply str_eqb_eq in Ec. repeat split; auto.
+  - destruct (str_eqb (s_client s0) (r_by r)) eqn:Ec; cbn [andb]; [|discriminate].
+    destruct (ep_class_ok P r); [|discriminate]. intros H. inversion H; subst. apply str_eqb_eq in Ec. repeat split; auto.
+  - destruct (str_eqb (s_client s0) (r_by r)) eqn:Ec; cbn [andb]; [|discriminate].
+    destruct (ep_class_ok P r); [|discriminate]. intros H. inversion H; subst. apply str_eqb_eq in Ec. repeat split; auto.
+  - destruct (str_eqb (s_client s0) (r_by r)) eqn:Ec; cbn [andb]; [|discriminate].
+    destruct (ep_class_ok P r); [|discriminate]. intros H. inversion H; subst. apply str_eqb_eq in Ec. repeat split; auto.
+Qed.
+
+(* together: whatever else is in flight, a session handed out for request i is the one on record for the session id
+   the token of request i was minted for *)
+Theorem tflight_bound_to_session P reqs sched i s :
+  In (i, TSession s) (run_tflight (tep_model P) reqs sched) ->
+  exists r, nth_error reqs i = Some r /\ tanswer1 P r = TSession s /\
+    forall m nonce rnd sid exp, r_tok r = mint (p_cfg P) m nonce rnd sid exp ->
+      assoc sid (p_db P) = Some s /\ (forall h, slot_handler (ep_slot (r_ep r)) = Some h -> m = MTok h) /\
+      (r_ep r <> EpUserinfo -> s_client s = r_by r).
+Proof.
+  intros H. apply tflight_model in H as (r & Hr & Ha). symmetry in Ha. exists r. split; [exact Hr|]. split; [exact Ha|].
+  intros m nonce rnd sid exp Ht. exact (tanswer1_minted P r m nonce rnd sid exp s Ht Ha).
+Qed.
+
+(* an access token in flight at userinfo is answered with its own session *)
+Theorem tanswer1_userinfo_access P nonce rnd sid exp by_ :
+  p_expired P exp = false ->
+  tanswer1 P (mkTreq EpUserinfo (mint (p_cfg P) (MTok KAccess) nonce rnd sid exp) by_) =
+  match assoc sid (p_db P) with Some s => TSession s | None => TRefused end.
+Proof.
+  intros E. unfold tanswer1, tparse, tprocess, slot_session. cbn [r_ep r_tok ep_slot].
+  rewrite bearer_access_resolves by exact E.
+  unfold slot_resolve. cbn [slot_handler]. rewrite handler_info_own by exact E.
+  destruct (assoc sid (p_db P)); reflexivity.
+Qed.
+
+(* NON-VACUITY / the refuted variant: an endpoint object that remembers what parse_request resolved and lets the
+   next process_request use it.  Alone every request is answered correctly; with parse 0, parse 1, process 0 the
+   request that presents the token of session 0 is answered with session 1. *)
+Definition ex_cfg : hconf := mkHconf (HOpaque 0) (HOpaque 0) (HOpaque 0) 50.
+Definition ex_prov : prov :=
+  mkProv ex_cfg (fun _ => false)
+    [(PS "sid-0", mkSess 0 (PS "diana") (PS "client_1")); (PS "sid-1", mkSess 1 (PS "babs") (PS "client_2"))].
+Definition ex_req (sid : pystr) : treq := mkTreq EpUserinfo (mint ex_cfg (MTok KAccess) (PS "n") (PS "r") sid (PS "99")) (PS "").
+Example remembering_endpoint_refuted :
+  let reqs := [ex_req (PS "sid-0"); ex_req (PS "sid-1")] in
+  let s0 := mkSess 0 (PS "diana") (PS "client_1") in
+  let s1 := mkSess 1 (PS "babs") (PS "client_2") in
+  town_answer (tep_remember ex_prov) (ex_req (PS "sid-0")) = TSession s0 /\
+  town_answer (tep_remember ex_prov) (ex_req (PS "sid-1")) = TSession s1 /\
+  run_tflight (tep_remember ex_prov) reqs [TvParse 0; TvProcess 0; TvRespond 0; TvParse 1; TvProcess 1; TvRespond 1]
+    = [(0%nat, TSession s0); (1%nat, TSession s1)] /\
+  run_tflight (tep_remember ex_prov) reqs [TvParse 0; TvParse 1; TvProcess 0; TvRespond 0; TvProcess 1; TvRespond 1]
+    = [(0%nat, TSession s1); (1%nat, TSession s1)] /\
+  run_tflight (tep_model ex_prov) reqs [TvParse 0; TvParse 1; TvProcess 0; TvRespond 0; TvProcess 1; TvRespond 1]
+    = [(0%nat, TSession s0); (1%nat, TSession s1)].
+Proof. vm_compute. repeat split; reflexivity. Qed.
